@@ -356,16 +356,67 @@ func (a Float) M__complex__() (Object, error) {
 }
 
 func (a Float) M__round__(digitsObj Object) (Object, error) {
-	digits := 0
-	if digitsObj != None {
-		var err error
-		digits, err = MakeGoInt(digitsObj)
-		if err != nil {
-			return nil, err
+	f := float64(a)
+	if digitsObj == None {
+		// round to the nearest integer, ties to even, giving an int
+		if math.IsNaN(f) {
+			return nil, ExceptionNewf(ValueError, "cannot convert float NaN to integer")
 		}
+		if math.IsInf(f, 0) {
+			return nil, ExceptionNewf(OverflowError, "cannot convert float infinity to integer")
+		}
+		return Float(math.RoundToEven(f)).M__int__()
 	}
-	scale := Float(math.Pow(10, float64(digits)))
-	return scale * Float(math.Floor(float64(a)/float64(scale))), nil
+	digits, err := MakeGoInt(digitsObj)
+	if err != nil {
+		return nil, err
+	}
+	if math.IsNaN(f) || math.IsInf(f, 0) || f == 0 {
+		return a, nil
+	}
+	if digits >= 0 {
+		if digits > 323 {
+			// more digits than any float has
+			return a, nil
+		}
+		// correctly rounded decimal conversion and back
+		r, err := strconv.ParseFloat(strconv.FormatFloat(f, 'f', digits, 64), 64)
+		if err != nil {
+			return nil, ExceptionNewf(OverflowError, "rounded value too large to represent")
+		}
+		return Float(r), nil
+	}
+	// Rounding to a power of ten above the units: f = d.ddd * 10**exp
+	// so keep exp+digits decimals of the shortest exponent form
+	s := strconv.FormatFloat(f, 'e', -1, 64)
+	exp, err := strconv.Atoi(s[strings.IndexByte(s, 'e')+1:])
+	if err != nil {
+		return nil, err
+	}
+	switch prec := exp + digits; {
+	case prec >= 0:
+		s = strconv.FormatFloat(f, 'e', prec, 64)
+	case prec == -1:
+		// f is below the rounding unit 10**(exp+1): it rounds up
+		// to the unit if it is more than half of it, otherwise
+		// (including the tie) to zero
+		half, _, _ := big.ParseFloat("5e"+strconv.Itoa(exp), 10, 2200, big.ToNearestEven)
+		if new(big.Float).SetFloat64(math.Abs(f)).Cmp(half) > 0 {
+			s = "1e" + strconv.Itoa(exp+1)
+			if f < 0 {
+				s = "-" + s
+			}
+		} else {
+			return Float(math.Copysign(0, f)), nil
+		}
+	default:
+		return Float(math.Copysign(0, f)), nil
+	}
+	r, err := strconv.ParseFloat(s, 64)
+	if err != nil {
+		return nil, ExceptionNewf(OverflowError, "rounded value too large to represent")
+	}
+	return Float(r), nil
 }
 
 // Rich comparison
